@@ -248,6 +248,10 @@ def run(tier):
     chk.cov["distinct_nontrivial"] = totals.get("nontrivial", 0)
     chk.cov["exhaustive"] = not quick
     chk.cov["binding"] = totals
+    # vacuity guards: the run must have exercised what it claims
+    for key, least in (("graphs", 1), ("paths_found", 100), ("nontrivial", 1000), ("time_travel", 1000), ("extract", 100), ("search", 100), ("traverse", 100)):
+        if totals.get(key, 0) < least:
+            chk.infra.append("vacuous coverage: %s = %s" % (key, totals.get(key, 0)))
     chk.cov["families"] = families
     chk.cov["rule"] = (
         "graphs: " + "; ".join("%s: %d enumerated by TLC, %d replayed (%s)" % (f["config"], f["graphs_enumerated_by_tlc"], f["graphs_replayed"], f["bound"])
@@ -262,12 +266,19 @@ def run(tier):
           "path of WalkSeqs to VTraverse (now). A query is non-trivial when the required answer is not the trivial one (Dist > 0, scope larger "
           "than the root, non-empty walk set).")
     chk.assumptions += [
-        "graphs have 4 nodes and 2 relations (7 nodes for the hand-made chain family that exercises the depth clamp 5, default depths and the traversal cap)",
-        "the history of a graph is the canonical one (all links in code order, then the soft deletes, then the re-links); edge weights/properties do not vary",
-        "the design-level check treats the queue order of the code as nondeterministic (every parent / meeting node the code could pick is checked)",
+        "graphs have 4 nodes and 2 relations (7 nodes for the hand-made chain family that exercises the depth clamp 5, default depths and paths of up to 6 hops; "
+        "a hand-made 4-node family of self-referential graphs exercises the traversal cap 10)",
+        "the history of a graph is the canonical one (link first versions in code order, soft-delete, re-link, soft-delete, re-link); at most 3 versions per "
+        "(source,target,relation); edge weights/properties do not vary; no hard deletes, no node deletes (C12), no restart (C01)",
+        "abstract times are refined to the real timestamps read back from VGetEdges: a query at abstract time i is issued at the timestamp of event i and at "
+        "the last nanosecond before event i+1 (one hour later for the last event)",
+        "the design-level check treats the queue order of the code as nondeterministic (every parent / meeting node the code could pick is checked) and, on "
+        "4 nodes, queries only T = 0 for graphs of <= 5 live edges (FindPath and the scope BFS see a graph only through its active edge set) and every T for "
+        "graphs of <= 2 versions",
         "FindPath may also return a (shortest, valid) path longer than maxDepth: the property only requires a path when Dist <= maxDepth "
         "(the code reaches 2*maxDepth-1 hops; counted as paths_beyond_depth)",
-        "VSearch is issued with k larger than the index so that the graph scope, not the top-k cut, decides membership",
+        "VSearch is issued with k larger than the index so that the graph scope, not the top-k cut, decides membership; all graph nodes carry a vector, two "
+        "extra vectors outside the graph must never appear in a scope",
     ]
     return chk.finish()
 
